@@ -15,7 +15,6 @@ hang candidate and re-tried by the check in fresh processes.
 from __future__ import annotations
 
 import os
-import pickle
 import random
 import shutil
 import tempfile
@@ -178,8 +177,9 @@ def _install():
                     w = _ctx['writers']
                     c = w.setdefault(id(writer), len(w) + 1)
                     _ctx['conn_of'][r] = c
+                    _ctx['id2r'][str(request_id)] = r  # the id as it goes on the wire
                     _emit('Take', r=r, c=c)
-                    _emit('Write', r=r, c=c)
+                    _emit('Write', r=r, c=c, id=_small_id(request_id))
             else:  # server side: the id as read from the request header
                 r = _ctx['id2r'].get(request_id)
                 if r is not None:
@@ -211,7 +211,6 @@ def _install():
                     r = None
                 if r is not None:
                     fut._vr = r
-                    _ctx['id2r'][str(id(fut))] = r
                     _emit('Sub', r=r, id=_small_id(id(fut)))
             return super().put(item, block, timeout)
 
@@ -237,11 +236,6 @@ class _ActiveDict(dict):
         if r is not None:
             _emit('CRecv', r=r, found=True)
         return fut
-
-
-def _expected(sc, payloads):
-    """H(payload) computed locally"""
-    return {r: ('echo', r, payloads[r]) for r in payloads}
 
 
 def run_socket(sc):
@@ -387,12 +381,26 @@ def run_socket(sc):
             threads.append(threading.Thread(target=controller, name='verif-controller', daemon=True))
         for t in threads:
             t.start()
-        for t in threads:
-            t.join(max(0.0, deadline - time.monotonic()))
+        # wait for the callers; notice at once if the client's event loop thread or the server died
+        died = None
+        while any(t.is_alive() for t in threads) and time.monotonic() < deadline:
+            for t in threads:
+                t.join(0.05)
+                if t.is_alive():
+                    break
+            if client._tasks and client._tasks[0].done():
+                died = 'client loop ended: ' + repr(client._tasks[0].exception())
+            elif srv_err or not st.is_alive():
+                died = 'server ended: ' + repr(srv_err)
+            if died:
+                time.sleep(0.3)
+                break
         alive = [t.name for t in threads if t.is_alive()]
         if alive:
-            status = 'hang'
-            detail = {'alive': alive, 'started': list(state['started']), 'finished': sorted(state['finished']),
+            status = 'crash' if died else 'hang'
+            if died:
+                ev.append({'ev': 'Crash', 'what': died[:300]})  # no action of the spec matches: TLC rejects the trace here
+            detail = {'alive': alive, 'died': died, 'started': list(state['started']), 'finished': sorted(state['finished']),
                       'returned': sorted(results), 'active': len(client._active_requests),
                       'pending': client._pending_requests.qsize(), 'server_error': srv_err,
                       'client_tasks': [repr(t.exception()) if t.done() else 'running' for t in client._tasks]}
@@ -578,6 +586,12 @@ def run_job(job):
         if res['status'] == 'hang':
             hangs.append(rec)
             unrun = items[idx + 1:]  # threads / sockets of the hung scenario are still around: go on in a fresh process
+            break
+        if res['status'] == 'crash':
+            # the client loop (or the server) died with callers still waiting: the trace (no End) goes to TLC, which names
+            # the step; abandoned threads are still around: go on in a fresh process
+            traces.append(rec)
+            unrun = items[idx + 1:]
             break
         if res['status'] == 'error':
             errors.append(rec)
